@@ -199,8 +199,12 @@ fn main() {
                 allow_mid_setlen: i % 6 == 5,
                 comp_bias: i % 3 == 0,
             };
-            let (c, o) = with_h!(h, generate(dir.path(), &mut rng, &plan));
-            out.case(&c, &o);
+            // a panic while generating (the real code is running) is an observation, not a harness crash
+            let mut r2 = rng.fork();
+            match catch(|| with_h!(h, generate(dir.path(), &mut r2, &plan))) {
+                Some((c, o)) => out.case(&c, &o),
+                None => out.case(&format!("h {h} {} {} n", plan.size, plan.start), "PANIC"),
+            }
         }
     }
     out.flush();
